@@ -18,13 +18,17 @@ METHODS = ('fixed-point', 'newton', 'linear')
 CARRIER = {'real': 'nat', 'log': 'nat', 'mp': 'mp', 'bool': 'bool'}
 
 
-def run_config(a, kind, method, dtype, extra_opts=None, build_opts=None):
+def run_config(a, kind, method, dtype, extra_opts=None, build_opts=None, pat=None):
     """One observed sum_products call -> run record for the judge."""
     import torch, fggs
-    tag = [kind, method, str(dtype).replace('torch.', '')] + ([json.dumps(extra_opts, sort_keys=True)] if extra_opts else [])
+    tag = [kind, method, str(dtype).replace('torch.', '')] + ([json.dumps(extra_opts, sort_keys=True)] if extra_opts else []) \
+          + (sorted(build_opts) if build_opts else []) + (['patterned_weights'] if pat else [])
     run = {'sr': CARRIER[kind], 'tag': tag, 'out': 'ok', 'res': {}, 'partial': False}
     try:
-        g, info = AG.build_fgg(a, kind, dtype, **(build_opts or {}))
+        bo = dict(build_opts or {})
+        if pat:
+            bo['patterned'] = AG.pattern_hooks(pat)
+        g, info = AG.build_fgg(a, kind, dtype, **bo)
         with warnings.catch_warnings(record=True) as wl:
             warnings.simplefilter('always')
             with torch.no_grad():
@@ -55,7 +59,13 @@ def make_case(a, tier, idx=0):
             dts = [torch.float64 if (idx % 2 == 0) else torch.float32]
         for dt in dts:
             for m in METHODS:
-                runs.append(run_config(a, kind, m, dt))
+                runs.append(run_config(a, kind, m, dt, pat=a.get('pat')))
+            # the same grammar presented differently: README-style label objects, reversed rule order, implicit ids
+            if idx % 3 == 1:
+                m = METHODS[idx % 3]
+                runs.append(run_config(a, kind, m, dt, build_opts={'fresh_labels': True}))
+                runs.append(run_config(a, kind, m, dt, build_opts={'fresh_labels': True, 'rule_order': list(reversed(range(len(a['rules']))))}))
+    a = {k: v for k, v in a.items() if k != 'pat'}
     return {'ag': a, 'runs': runs}
 
 
@@ -135,6 +145,25 @@ def cases_for(tier, seed, work, o: Outcome):
     rng = rng_for(seed, 'c01')
     for i in range(nrand):
         ags.append(AG.gen_ag(rng, recursion='none', **RANDOM_PROFILES[i % len(RANDOM_PROFILES)]))
+    # the same random grammars with weight tables that fit a sparsity pattern, given to the library AS patterned tensors
+    npat = 0
+    for a in list(ags[-nrand:]):
+        if npat >= nrand // 3:
+            break
+        a2, pat = AG.patternise(rng, a)
+        if pat and AG.nat_bound(a2) < (1 << 24):
+            ags.append(dict(a2, pat=pat))
+            npat += 1
+    o.extra['grammars_with_patterned_weights'] = npat
+    # pass-through rules: every node external, permuted, some touched by no edge
+    npass = 60 if tier == 'quick' else 600
+    for i in range(npass):
+        a = AG.gen_passthrough(rng)
+        if i % 2 == 1:
+            a2, pat = AG.patternise(rng, a)
+            a = dict(a2, pat=pat) if pat else a
+        ags.append(a)
+    o.extra['pass_through_grammars'] = npass
     return ags
 
 
